@@ -945,7 +945,7 @@ def run(tier, seed, replay=None):
         "translation keeping the scene within 1e3 of the origin) and one scale factor in [1e-2,1e2] keeping all sizes in the "
         "domain; stream nearid: frames of both arguments within 1e-9 .. 1e-5 rad of the identity / of an axis permutation (or exactly "
         "so), scene near the origin moved by (identity | near-identity | axis permutation) + a translation up to 985, or scene "
-        "up to 985 from the origin moved by an arbitrary rotation, for all 34 distance functions (30 per posed function in the quick tier) and "
+        "up to 985 from the origin moved by an arbitrary rotation, for all 34 distance functions (80 per posed function in the quick tier) and "
         "collider scenes; distinct by canonical hash of (scene, motion, scale); non-trivial = at least one scalar comparison between two "
         "forms of the scene was actually made (not skipped as raised / known finding / band)")
     R.assumptions += [
@@ -992,7 +992,7 @@ def run(tier, seed, replay=None):
                 scenes.append(gen_prim_scene(R.rng, fn))
         # near-identity frames x far translations (see near_identity_rot): every distance function, with more weight on the
         # ones that take a 4x4 pose (box, ellipsoid, cylinder: the code evaluates them in the local frame), and collider scenes
-        n_posed, n_other, n_near_nar = (30, 4, 14) if tier == "quick" else (240, 40, 150)
+        n_posed, n_other, n_near_nar = (80, 4, 14) if tier == "quick" else (400, 40, 150)
         if cm.os.environ.get("C12_NEARID"):            # development aid only
             n_posed, n_other, n_near_nar = (int(x) for x in cm.os.environ["C12_NEARID"].split(","))
         for fn in pl.FUNCS:
